@@ -177,6 +177,15 @@ func (m *Machine) callFunction(caller *frame, fn *ssa.Function, args []Value, en
 		fr := &frame{m: m, caller: caller, fn: fn}
 		return intr(m, fr, args)
 	}
+	return m.callBody(caller, fn, args, env)
+}
+
+// callRealBody lets an intrinsic fall back to the function's own code.
+func (m *Machine) callRealBody(fr *frame, args []Value) Value {
+	return m.callBody(fr.caller, fr.fn, args, nil)
+}
+
+func (m *Machine) callBody(caller *frame, fn *ssa.Function, args []Value, env []Value) Value {
 	if caller != nil && fn.Synthetic == "package initializer" {
 		return nil // initialisers of imported packages run on demand (first global access)
 	}
